@@ -37,23 +37,60 @@ class MemFS:
         binary = 'b' in mode
         enc = None if binary else (encoding or self.default)
         self.log.append((path, mode, encoding))
+        writing = any(m in mode for m in 'wax+')
+        if 'x' in mode and path in self.files:
+            raise FileExistsError(path)
         if 'w' in mode:
-            self.files[path] = b''
+            self.files[path] = b''                      # truncation happens at open
+        elif ('a' in mode or 'x' in mode) and path not in self.files:
+            self.files[path] = b''                      # append / exclusive creation create the file
+        if writing:
+            start = self.files.get(path)
+            if start is None:
+                raise FileNotFoundError(path)
 
-            class W(io.StringIO if not binary else io.BytesIO):
+            class W:
+                def __init__(s):
+                    s.pos = len(start) if 'a' in mode else 0
+
                 def write(s, data):
-                    b = data if binary else data.encode(enc)
-                    fs.files[path] = fs.files[path] + b
+                    bts = data if binary else data.encode(enc)
+                    cur = fs.files[path]
+                    if 'a' in mode:
+                        fs.files[path] = cur + bts
+                    else:
+                        fs.files[path] = cur[:s.pos] + bts + cur[s.pos + len(bts):]
+                        s.pos += len(bts)
                     return len(data)
+
+                def read(s, n=-1):
+                    data = fs.files[path][s.pos:]
+                    s.pos = len(fs.files[path])
+                    return data if binary else data.decode(enc)
+
+                def seek(s, pos, whence=0):
+                    s.pos = pos if whence == 0 else len(fs.files[path])
+                    return s.pos
+
+                def truncate(s, size=None):
+                    fs.files[path] = fs.files[path][:s.pos if size is None else size]
+
+                def flush(s):
+                    pass
 
                 def close(s):
                     pass
+
+                def __enter__(s):
+                    return s
 
                 def __exit__(s, *a):
                     return False
             return W()
         if path in self.files:
             data = self.files[path]
+        elif path.startswith('/virtual/'):
+            raise FileNotFoundError(path)
         else:
             with io.open(path, 'rb') as f:
                 data = f.read()
@@ -187,7 +224,7 @@ def judge(f, enc, cp, ic, prior='unrelated'):
         # z3: is there a prior content P (|P| <= 8) that the file no longer holds?  The stub was run with one concrete P;
         # the final content is P itself iff untouched, else a value that does not depend on P.
         P = z3.String('P')
-        final = P if r['content'] == r['prior'] else z3.StringVal((r['content'] or b'<absent>').decode('utf-8', 'replace'))
+        final = P if r['content'] == r['prior'] else z3.StringVal(('<file now exists>' if r['content'] == b'' else (r['content'] or b'<absent>').decode('utf-8', 'replace')))
         s = z3.Solver()
         s.add(z3.Length(P) <= 8, z3.Length(P) >= 1, final != P)
         lang.STATS['atomic.calls'] += 1
